@@ -68,6 +68,18 @@ def register(api):
             raise api.ExtractError("EXP_TIME_UNIT not found")
         secs, nanos = int(mm.group(1)), int(mm.group(2).replace("_", ""))
         vals["EXP_UNIT_NANOS"] = secs * 10**9 + nanos
+        # largest hop-field index the 6-bit CurrHF pointer can hold (advance_* refuse to move beyond it)
+        rel4 = "crates/libs/sciparse/src/proto/dataplane_path/standard/layout.rs"
+        src4 = api.strip_comments(api.read(rel4))
+        mm = re.search(r"const\s+MAX_TOTAL_HOPS\s*:\s*usize\s*=\s*(\d+)\s*;", src4)
+        if not mm:
+            raise api.ExtractError("StdPathMetaLayout::MAX_TOTAL_HOPS not found")
+        vals["MAX_TOTAL_HOPS"] = int(mm.group(1))
+        rel5 = "crates/libs/sciparse/src/proto/dataplane_path/standard/routing.rs"
+        src5 = api.strip_comments(api.read(rel5))
+        n_guard = len(re.findall(r"curr_hop_idx\s*\+\s*1\s*>\s*StdPathMetaLayout::MAX_TOTAL_HOPS", src5))
+        if n_guard != 2:
+            raise api.ExtractError(f"expected the CurrHF overflow guard in advance_ingress (segment change) and advance_egress, found {n_guard}")
         out = "namespace ScionVerif.Generated.Router\n"
         out += "inductive LinkType | toCore | toParent | toChild | toPeer\nderiving Repr, DecidableEq\n\n"
         out += "/-- `validate_segment_change`: (link type of the ingress of the current hop, link type of the egress of the next hop) -/\n"
@@ -79,8 +91,9 @@ def register(api):
         for k in ["Core", "Child", "Parent", "Peer"]:
             out += f"  | .{k.lower()} => .{lean_lt(swap[k])}\n"
         out += f"\n/-- `EXP_TIME_UNIT` in nanoseconds -/\ndef EXP_UNIT_NANOS : Nat := {vals['EXP_UNIT_NANOS']}\n"
+        out += f"\n/-- `StdPathMetaLayout::MAX_TOTAL_HOPS`: largest value of the 6-bit CurrHF pointer -/\ndef MAX_TOTAL_HOPS : Nat := {vals['MAX_TOTAL_HOPS']}\n"
         out += "end ScionVerif.Generated.Router\n"
-        return api.write_lean("Router", out, [rel, rel2, rel3]), vals
+        return api.write_lean("Router", out, [rel, rel2, rel3, rel4, rel5]), vals
 
 
 def lean_lt(name):
